@@ -6,8 +6,15 @@ From Coq Require Import String List ZArith Bool Arith.
 Import ListNotations.
 
 Inductive nty := TBool | TInt | TFloat | TNpInt | TNpFloat | TNpBool.
-(* a number: its Python type, its value if it is integral, else an opaque code of the non-integral value *)
-Record num := { nt : nty; integral : bool; code : Z }.
+(* a number: its Python type, its value if it is integral, else an opaque code of the non-integral value; [negz] marks the
+   negative zero of a float type (-0.0 == 0.0 and both hash alike, but they print differently and copysign tells them apart) *)
+Record num := { nt : nty; integral : bool; code : Z; negz : bool }.
+
+(* how the key compares numbers: Python's == (the pinned tree), == and the type, or == and the type and the printed value
+   (the source now - Gen/GenFreeze.v reads the conjuncts of _Scalar.__eq__) *)
+Inductive kmode := ByValue | ByType | ByTypeAndRepr.
+Definition m_typed (m : kmode) : bool := match m with ByValue => false | _ => true end.
+Definition m_repr (m : kmode) : bool := match m with ByTypeAndRepr => true | _ => false end.
 
 Inductive fv :=
 | FNum (n : num)
@@ -26,16 +33,16 @@ Definition nty_eqb (a b : nty) : bool :=
 (* Python's == on numbers: by value, whatever the types *)
 Definition num_eq (a b : num) : bool := Bool.eqb (integral a) (integral b) && Z.eqb (code a) (code b).
 
-Fixpoint key_eq (typed : bool) (a b : fv) {struct a} : bool :=
+Fixpoint key_eq (m : kmode) (a b : fv) {struct a} : bool :=
   let list_eq := fix go (l1 l2 : list fv) : bool :=
-                   match l1, l2 with [], [] => true | x :: r1, y :: r2 => key_eq typed x y && go r1 r2 | _, _ => false end in
+                   match l1, l2 with [], [] => true | x :: r1, y :: r2 => key_eq m x y && go r1 r2 | _, _ => false end in
   let dict_eq := fix go (l1 l2 : list (string * fv)) : bool :=
                    match l1, l2 with
                    | [], [] => true
-                   | (k1, v1) :: r1, (k2, v2) :: r2 => String.eqb k1 k2 && key_eq typed v1 v2 && go r1 r2
+                   | (k1, v1) :: r1, (k2, v2) :: r2 => String.eqb k1 k2 && key_eq m v1 v2 && go r1 r2
                    | _, _ => false end in
   match a, b with
-  | FNum x, FNum y => (if typed then nty_eqb (nt x) (nt y) else true) && num_eq x y
+  | FNum x, FNum y => (if m_typed m then nty_eqb (nt x) (nt y) else true) && num_eq x y && (if m_repr m then Bool.eqb (negz x) (negz y) else true)
   | FStr x, FStr y => String.eqb x y
   | FNone, FNone => true
   | FTuple l1, FTuple l2 => list_eq l1 l2
